@@ -1468,6 +1468,35 @@ fn run(ctx: &mut Ctx) {
         residues_large(ctx);
     }
     walk_shapes(ctx, tier.pick(2, 3));
+    // LAST (a recorded finding must not cut other families short): dense machine-integer matrices on which the
+    // Bezout-coefficient elimination of the i64 backend overflows although every exact answer is tiny, and the
+    // p-adic solver with a right-hand side without columns
+    if ctx.take() {
+        let m4: Mat = vec![vec![-900, -269, -842, -9], vec![-578, 853, -780, 672], vec![789, 70, -785, -667], vec![-1367, 783, 5, 1339]];
+        check_i64_big(ctx, "dense-i64", &m4, 4, &[], 4000);
+    }
+    if ctx.take() {
+        let m7: Mat = vec![vec![1, -4, 6, -3, 8, -4, -1], vec![7, 4, 2, 1, -4, 2, 3], vec![-4, 0, -2, -5, 0, -1, 6], vec![-3, -2, 4, -4, 1, 3, 7], vec![-8, 5, -9, -9, 3, 9, 9], vec![-7, -2, 9, 1, 4, 3, -5], vec![11, 4, 4, 6, -4, 3, -3]];
+        check_i64_big(ctx, "dense-i64", &m7, 7, &[vec![-8, -16, -14, -7, 15, 24, -2]], 7000);
+    }
+    if ctx.take() {
+        // no right-hand side at all: the solution is the n x 0 matrix
+        let case = json!({"family": "padic-empty-rhs", "rows": [[1, 0], [0, 1]]});
+        ctx.announce(&case);
+        ctx.count(true);
+        ctx.ops(1);
+        let a = vm_i64(&vec![vec![1, 0], vec![0, 1]], 2);
+        let b = VecMatrix::<i64>::new(2, 0);
+        match ctx.guard(|| modular_solver::solve(&a, &b)) {
+            Ok(Some(x)) => {
+                if x.nr_rows() != 2 || x.nr_columns() != 0 {
+                    ctx.violation("padic-wrong", case, format!("solution has shape {} x {}, expected 2 x 0", x.nr_rows(), x.nr_columns()), 20);
+                }
+            }
+            Ok(None) => ctx.violation("padic-missed", case, "modular solver returned None for the identity matrix".into(), 20),
+            Err(msg) => ctx.violation("panic:padic", case, msg, 20),
+        }
+    }
 }
 
 fn replay(ctx: &mut Ctx, case: &Value) {
